@@ -514,6 +514,192 @@ fn run_scenario(run: &Run, scenario: usize, h: &mut Hist, sc: &Scratch, n_trunk:
 	let _ = std::fs::remove_dir_all(&node.dir);
 }
 
+// ---------------------------------------------------------------- accumulator-level programs
+
+/// The chain-level worlds cannot afford output sets in which a whole interior 1024-bit chunk is spent (every output costs
+/// a range proof). The accumulator itself is cheap: it is driven here exactly as the txhashset extension drives it — per
+/// block `apply(sorted affected indices, unspent indices from the start of the first affected chunk, leaf count)`, per
+/// rewind the same with the restored indices plus the last leaf of the target state, per restart `init` from index 0 —
+/// over output sets of up to ~20 chunks with whole chunks spent, spends at chunk boundaries, growth by exact multiples of
+/// 1024, and rewinds across several chunk boundaries. After every step root and `as_bitmap` must equal the from-scratch
+/// commitment over the model's unspent set.
+fn accumulator_programs(run: &Run, n_programs: u64) {
+	use grin_chain::txhashset::BitmapAccumulator;
+	use std::collections::BTreeSet;
+	for pidx in 0..n_programs {
+		let mut p = Prng::new(run.seed.wrapping_mul(0x9E37_79B9_7F4A_7C15) ^ (0xACC0_0000 + pidx));
+		let mut acc = BitmapAccumulator::new();
+		let mut size: u64 = 0;
+		let mut unspent: BTreeSet<u64> = BTreeSet::new();
+		let mut saved: Vec<(u64, BTreeSet<u64>)> = vec![];
+		let n_steps = 15 + p.usize_below(40);
+		let mut trace: Vec<String> = vec![];
+		let mut failed = false;
+		for step in 0..n_steps {
+			if failed {
+				break;
+			}
+			let kind = if size == 0 { 0 } else { p.below(10) };
+			let step_name;
+			let r: Result<(), String> = if kind <= 6 {
+				// ---- a block: spends of older outputs + new outputs
+				let mut spends: BTreeSet<u64> = BTreeSet::new();
+				let pattern = p.below(6);
+				let chunks_now = (size + 1023) / 1024;
+				match pattern {
+					0 => {
+						for _ in 0..p.below(5) {
+							if let Some(&x) = unspent.iter().nth(p.usize_below(unspent.len().max(1))) {
+								spends.insert(x);
+							}
+						}
+					}
+					1 if chunks_now >= 3 => {
+						// every unspent output of one INTERIOR chunk
+						let c = 1 + p.below(chunks_now - 2);
+						spends.extend(unspent.range(c * 1024..(c + 1) * 1024).cloned());
+						run.count("accumulator.whole_interior_chunk_spent", 1);
+					}
+					2 if chunks_now >= 2 => {
+						// the first chunk that still has unspent outputs, emptied
+						if let Some(&first) = unspent.iter().next() {
+							let c = first / 1024;
+							if (c + 1) * 1024 < size {
+								spends.extend(unspent.range(c * 1024..(c + 1) * 1024).cloned());
+								run.count("accumulator.oldest_occupied_chunk_emptied", 1);
+							}
+						}
+					}
+					3 => {
+						// around chunk boundaries
+						for c in 1..=chunks_now {
+							for d in [c * 1024 - 1, c * 1024, c * 1024 + 1] {
+								if unspent.contains(&d) && p.chance(1, 2) {
+									spends.insert(d);
+									run.count("accumulator.boundary_index_spends", 1);
+								}
+							}
+						}
+					}
+					4 => {
+						// a run of consecutive outputs crossing a boundary
+						if size > 1100 {
+							let c = 1 + p.below(chunks_now.saturating_sub(1).max(1));
+							let lo = (c * 1024).saturating_sub(p.below(40));
+							let hi = c * 1024 + p.below(40);
+							spends.extend(unspent.range(lo..hi).cloned());
+						}
+					}
+					_ => {}
+				}
+				let to_boundary = 1024 - (size % 1024);
+				let m = match p.below(8) {
+					0 => 1,
+					1 => 2,
+					2 => 9,
+					3 => 300,
+					4 => to_boundary,
+					5 => to_boundary + 1,
+					6 => 1024,
+					_ => 1500 + p.below(1500),
+				};
+				let m = if size + m > 22_000 { 1 } else { m };
+				saved.push((size, unspent.clone()));
+				if saved.len() > 6 {
+					saved.remove(0);
+				}
+				for x in &spends {
+					unspent.remove(x);
+				}
+				let mut affected: Vec<u64> = spends.iter().cloned().collect();
+				for i in size..size + m {
+					unspent.insert(i);
+					affected.push(i);
+				}
+				size += m;
+				affected.sort_unstable();
+				let min_idx = affected[0];
+				step_name = format!("block(pattern {}, {} spends, +{} outputs)", pattern, spends.len(), m);
+				acc.apply(affected, unspent.range(BitmapAccumulator::chunk_start_idx(min_idx)..).cloned(), size).map_err(|e| format!("{:?}", e))
+			} else if kind <= 8 && !saved.is_empty() {
+				// ---- rewind to an earlier block boundary
+				let j = p.usize_below(saved.len());
+				let (tsize, tunspent) = saved[j].clone();
+				saved.truncate(j);
+				if tsize == 0 {
+					step_name = "rewind_to_genesis(skipped)".to_string();
+					Ok(())
+				} else {
+					let mut affected: Vec<u64> = tunspent.iter().filter(|x| !unspent.contains(x)).cloned().collect();
+					affected.push(tsize - 1);
+					affected.sort_unstable();
+					affected.dedup();
+					let min_idx = affected[0];
+					let chunks_crossed = (size + 1023) / 1024 - (tsize + 1023) / 1024;
+					if chunks_crossed >= 1 {
+						run.count("accumulator.rewinds_shrinking_across_a_chunk_boundary", 1);
+					}
+					step_name = format!("rewind({} -> {} leaves, {} restored)", size, tsize, affected.len() - 1);
+					size = tsize;
+					unspent = tunspent;
+					acc.apply(affected, unspent.range(BitmapAccumulator::chunk_start_idx(min_idx)..).cloned(), size).map_err(|e| format!("{:?}", e))
+				}
+			} else {
+				// ---- restart: rebuilt from the leaf set
+				step_name = "restart(init)".to_string();
+				acc = BitmapAccumulator::new();
+				run.count("accumulator.restarts", 1);
+				acc.init(unspent.iter().cloned(), size).map_err(|e| format!("{:?}", e))
+			};
+			trace.push(step_name.clone());
+			let desc = json!({"part": "accumulator", "program": pidx, "step": step, "steps": trace, "leaves": size, "unspent": unspent.len()});
+			if let Err(e) = r {
+				run.violation(&format!("accumulator;{};clause=error", step_name.split('(').next().unwrap_or("")), &format!("step failed: {}", e), desc);
+				failed = true;
+				continue;
+			}
+			let idx: Vec<u64> = unspent.iter().cloned().collect();
+			let exp = bitmap_root_from_idx(&idx);
+			let got = acc.root();
+			let chunks = (size + 1023) / 1024;
+			let empty_interior = (1..chunks.saturating_sub(1)).filter(|c| unspent.range(c * 1024..(c + 1) * 1024).next().is_none()).count();
+			run.eval(&format!("acc:{}:chunks{}:empty{}", step_name.split('(').next().unwrap_or(""), chunks.min(24), empty_interior.min(3)), chunks >= 2);
+			run.count("accumulator.states_compared", 1);
+			if empty_interior > 0 {
+				run.count("accumulator.states_with_a_fully_spent_interior_chunk", 1);
+			}
+			run.set_max("max_accumulator_chunks_in_a_checked_state", chunks);
+			if got != exp {
+				run.violation(
+					&format!("accumulator;{};clause=root", step_name.split('(').next().unwrap_or("")),
+					&format!("after {}: accumulator root {} differs from the commitment computed from scratch {} ({} leaves, {} unspent, {} fully spent interior chunks)", step_name, got, exp, size, unspent.len(), empty_interior),
+					desc,
+				);
+				failed = true;
+				continue;
+			}
+			match acc.as_bitmap() {
+				Err(e) => {
+					run.violation("accumulator;clause=as_bitmap_error", &format!("{:?}", e), desc);
+					failed = true;
+				}
+				Ok(bm) => {
+					let v: Vec<u64> = bm.iter().map(|x| x as u64).collect();
+					if v != idx {
+						run.violation(
+							&format!("accumulator;{};clause=as_bitmap", step_name.split('(').next().unwrap_or("")),
+							&format!("after {}: as_bitmap() holds {} indices, the model {}", step_name, v.len(), idx.len()),
+							desc,
+						);
+						failed = true;
+					}
+				}
+			}
+		}
+		run.count("accumulator.programs", 1);
+	}
+}
+
 fn main() {
 	let run = Run::from_env("C15", "exploration");
 	init_globals(true);
@@ -560,7 +746,12 @@ fn main() {
 		let tip = hh.blocks.last().unwrap().hash;
 		hh.state(&tip).outs.len() as u64
 	});
-	run.spawn_workers(n_scen.min(16), &["--dir".to_string(), sc.path.display().to_string()], run.tier.pick(600, 3000));
+	std::thread::scope(|t| {
+		let run = &run;
+		let n = if san { 20 } else { run.tier.pick(400u64, 4000u64) };
+		t.spawn(move || accumulator_programs(run, n));
+		run.spawn_workers(n_scen.min(16), &["--dir".to_string(), sc.path.display().to_string()], run.tier.pick(600, 3000));
+	});
 	drop(sc);
 	if !san {
 		run.require("bitmap_root_comparisons", run.counter("bitmap_root_comparisons"), run.tier.pick(400, 2500));
@@ -574,6 +765,10 @@ fn main() {
 		run.require("boundary_index_spends", run.counter("boundary_index_spends"), 2);
 		run.require("old_chunk_spends", run.counter("old_chunk_spends"), 8);
 		run.require("reopen_comparisons", run.counter("reopen_comparisons"), 3);
+		run.require("accumulator.states_compared", run.counter("accumulator.states_compared"), run.tier.pick(8000, 80000));
+		run.require("accumulator.states_with_a_fully_spent_interior_chunk", run.counter("accumulator.states_with_a_fully_spent_interior_chunk"), run.tier.pick(500, 5000));
+		run.require("accumulator.rewinds_shrinking_across_a_chunk_boundary", run.counter("accumulator.rewinds_shrinking_across_a_chunk_boundary"), run.tier.pick(300, 3000));
+		run.require("accumulator.restarts", run.counter("accumulator.restarts"), run.tier.pick(300, 3000));
 		for v in ["spent_marked_unspent", "unspent_marked_spent_old", "newest_output_marked_spent", "bitmap_of_parent_state", "extra_chunk"] {
 			run.require(&format!("tampered_refused.{}", v), run.counter(&format!("tampered_refused.{}", v)), 3);
 		}
